@@ -4,6 +4,7 @@ package main
 import (
 	"context"
 	"fmt"
+	"github.com/cloudwego/hertz/pkg/network"
 	"io"
 	"reflect"
 	"regexp"
@@ -48,7 +49,7 @@ func main() {
 	})
 }
 
-var excluded = regexp.MustCompile(`^(Reset.*|SetConn|Exile|Hijack.*|SetHijackHandler|Copy|CopyTo|Next|Flush|File.*|ServeFile|SaveUploadedFile|Finished|SetHandlers|SetTraceInfo|SetEnableTrace|SetBinder|SetValidator|SetClientIPFunc|SetFormValueFunc|Render|HTML|ProtoBuf|Bind.*|Validate|MustGet|SetIsTLS|SetMaxKeepBodySize|SwapBody|ConstructBodyStream|BodyWriteTo|WriteTo|Write|CloseBodyStream|ReadFrom|SetOptions|Parse.*|HijackWriter|SetBodyStreamWriter|SetFullPath|SetIndex|ForEachKey|VisitAll.*|Release.*)$`)
+var excluded = regexp.MustCompile(`^(Reset.*|SetConn|Exile|Hijack|SetHijackHandler|Copy|CopyTo|Next|Flush|File.*|ServeFile|SaveUploadedFile|Finished|SetHandlers|SetTraceInfo|SetEnableTrace|SetBinder|SetValidator|SetClientIPFunc|SetFormValueFunc|Render|HTML|ProtoBuf|Bind.*|Validate|MustGet|SetIsTLS|SetMaxKeepBodySize|SwapBody|ConstructBodyStream|BodyWriteTo|WriteTo|Write|CloseBodyStream|ReadFrom|SetOptions|Parse.*|HijackWriter|SetBodyStreamWriter|SetFullPath|SetIndex|ForEachKey|VisitAll.*|Release.*)$`)
 
 var strPool = []string{"", "a", "k1", "X-Dirty", "Cookie", "Content-Type", "text/dirty", "/dirty/path?dq=1", "dirty=1&z=2", "Connection", "close", "Trailer", "Foo", "Content-Length", "5", "Host", "dirty.host", "gzip", "Set-Cookie", "dk=dv; path=/", "Content-Encoding", "Range", "bytes=0-1", "Transfer-Encoding", "chunked", "Server", "Date"}
 
@@ -247,6 +248,12 @@ type slot struct {
 	dirtyPtr  uintptr
 	probePtr  uintptr
 	panics    int
+	// hijack: the dirty handler also asks for the connection (ctx.Hijack); writeErr >= 0:
+	// the connection's writes fail after that many bytes, so the exchange ends on the
+	// error path between the handler and the hand-over
+	hijack    bool
+	writeErr  int
+	hijackRan int
 }
 
 type harness struct {
@@ -285,6 +292,9 @@ func newHarnessMode(stream bool) *harness {
 					targets[mc.tg].get(ctx).MethodByName(mc.name).Call(mc.args)
 				}()
 			}
+			if s.hijack {
+				ctx.Hijack(func(c network.Conn) { s.hijackRan++ })
+			}
 			if s.panicEnd {
 				panic("dirty handler panics (recovery middleware must catch it)")
 			}
@@ -309,12 +319,15 @@ var probeIDRe = regexp.MustCompile(`X-Probe=[A-Za-z0-9-]+`)
 
 var dateRe = regexp.MustCompile(`Date: [^\r]*\r\n`)
 
-func (h *harness) run(frags ...string) (string, *rig.Result) {
+func (h *harness) run(frags ...string) (string, *rig.Result) { return h.runW(-1, frags...) }
+
+func (h *harness) runW(writeErrAfter int, frags ...string) (string, *rig.Result) {
 	var fr [][]byte
 	for _, f := range frags {
 		fr = append(fr, []byte(f))
 	}
 	sc := sconn.New(fr, sconn.EOF)
+	sc.WriteErrAfter = writeErrAfter
 	res := rig.Serve(h.e, sc, 4096, false, 20*time.Second)
 	return dateRe.ReplaceAllString(string(res.Out), ""), res
 }
@@ -430,6 +443,14 @@ func work(w *mon.W) {
 		s.prog = genProgram(r, tmp, 1+r.Intn(8))
 		s.panicEnd = r.Chance(8)
 		pv, dv := r.Intn(nProbeVariants), r.Intn(3)
+		s.writeErr = -1
+		if r.Chance(6) {
+			s.hijack = true
+			if r.Bool() {
+				s.writeErr = r.Int(0, 10, 60)
+			}
+			w.Count("dirty_requests_that_hijack", 1)
+		}
 		refDump, refOut := refDumps[pv], refOuts[pv]
 		w.Count(fmt.Sprintf("dirty_variant_%d_probe_variant_%d", dv, pv), 1)
 		var ds []string
@@ -454,7 +475,7 @@ func work(w *mon.W) {
 			h.mu.Unlock()
 		}()
 		c.Detail = func() interface{} {
-			return map[string]interface{}{"program": ds, "panic_at_end": s.panicEnd, "dirty_request": dirtyReqV(dv, id), "probe_request": probeReqV(pv, id)}
+			return map[string]interface{}{"program": ds, "panic_at_end": s.panicEnd, "hijack": s.hijack, "write_error_after": s.writeErr, "dirty_request": dirtyReqV(dv, id), "probe_request": probeReqV(pv, id)}
 		}
 		w.Count("histories", 1)
 		compare := func(where, out string) bool {
@@ -477,7 +498,7 @@ func work(w *mon.W) {
 			return true
 		}
 		// same keep-alive connection
-		out, res := h.run(dirtyReqV(dv, id), probeReqV(pv, id))
+		out, res := h.runW(s.writeErr, dirtyReqV(dv, id), probeReqV(pv, id))
 		if res.Hang {
 			c.Violate("hang", "Serve did not finish after program %v", ds)
 			return
